@@ -69,7 +69,8 @@ class T:
         if t == "bullet_list":
             return ["ul", n.markup, self.blocks(n)]
         if t == "ordered_list":
-            return ["ol", n.markup, n.attrs.get("start"), self.blocks(n)]
+            style = {"decimal": "arabic", "lower-alpha": "loweralpha", "upper-alpha": "upperalpha", "lower-roman": "lowerroman", "upper-roman": "upperroman"}.get(str(n.attrs.get("style")), "arabic")
+            return ["ol", n.markup, n.attrs.get("start"), style, self.blocks(n)]
         if t == "list_item":
             return ["li", self.blocks(n)]
         if t == "code_block":
@@ -226,7 +227,7 @@ class D:
         if isinstance(n, nodes.bullet_list):
             return [["ul", n.get("bullet"), self.blocks(n)]]
         if isinstance(n, nodes.enumerated_list):
-            return [["ol", n.get("suffix"), n.get("start"), self.blocks(n)]]
+            return [["ol", n.get("suffix"), n.get("start"), n.get("enumtype"), self.blocks(n)]]
         if isinstance(n, nodes.list_item):
             return [["li", self.blocks(n)]]
         if isinstance(n, nodes.literal_block):
